@@ -4,6 +4,7 @@
 CONSTANTS
   Unit = 1
   MaxV = 32000
+  MaxPos = 1000000
   Vals <- TwoVals
   SVals <- TinySVals
   Sizes <- TinySizes
@@ -19,9 +20,11 @@ CONSTANTS
   Feats <- ExFeats
   Excluded <- NoExcl
   Faults <- NoFaults
+  NGs <- OneGlyph
 INIT Init
 NEXT Next
 VIEW View
+INVARIANT FreshMachine
 INVARIANT StackOK
 INVARIANT DepthOK
 INVARIANT StatusOK
